@@ -85,6 +85,7 @@ func ConfigureServeMux(s *http.ServeMux, conf *config.Config, router proxy.Route
 
 func cachingHandler(router proxy.Router, logger *apexlog.Logger, conf *config.Config, cache caching.Cache) func(http.ResponseWriter, *http.Request) {
 	return func(ow http.ResponseWriter, or *http.Request) {
+		router := router.Pinned()
 		m := mets.NewMetrics(or.URL.RequestURI(), nil, nil)
 		ctx := context.WithValue(or.Context(), "metrics", m)
 		defer m.ReportAndClose(time.Now())
